@@ -7,7 +7,7 @@ CONSTANTS
   ArmAt = "commit"
   Upfront = TRUE
   SplitStart = FALSE
-  Cap <- CapAll
+  Cap <- CapTwo
 SPECIFICATION Spec
 INVARIANTS TypeOK NoInflightBroadcast OnlyCommitted
 PROPERTIES PSafety Delivered Converged
